@@ -1,7 +1,7 @@
 (* C11 -- navigation always rests on a node of the current expression.  Statements only.
    Quantified over every expression (id list + root id), every command string, every behaviour of the navigation
    rules within [out_ok] (they name a node of the expression or the "not set" id), every state. *)
-From MC Require Import Lib.Base Model.Nav Proofs.NavP Model.KeyMap Proofs.KeyMapP.
+From MC Require Import Lib.Base Model.Nav Proofs.NavP Model.KeyMap Proofs.KeyMapP Gen.KeyTab Model.KeyPress Proofs.KeyPressP.
 From Coq Require Import String.
 Local Close Scope string_scope.
 Local Open Scope N_scope.
@@ -88,3 +88,10 @@ Theorem digit_keys_are_the_place_marker_row : forall d, (d < 10)%N ->
   decode documented (48 + d) true true = Some (S "Describe" ++ [48 + d])%list.
 Proof. exact L_digit_row. Qed.
 Print Assumptions digit_keys_are_the_place_marker_row.
+
+(* every documented cell of the key table (docs/nav-commands.md as Model/KeyMap.v) is what the code's own table
+   (regenerated from src/navigate.rs on every run) gives: pressing the key hands on exactly the documented command *)
+Theorem documented_key_is_its_command : forall k ct sh name, In (k, ct, sh, name) documented ->
+  press k sh ct false false = PCommand name.
+Proof. exact L_documented_key_is_its_command. Qed.
+Print Assumptions documented_key_is_its_command.
